@@ -164,6 +164,11 @@ def standin(rep: Report):
         ind = textwrap.indent(b, "    ")
         cases.append({"src": f"with! ctx:\n{ind}after = 1\n", "expect": [b], "kind": "with", "after": "after = 1\n"})
         cases.append({"src": f"if a:\n    with! ctx as c:\n{textwrap.indent(b, '        ')}    inner = 1\nouter = 2\n", "expect": [b], "kind": "with", "after": "outer = 2\n"})
+    # physical lines of the block that are indented LESS than its first statement (bracket continuation, inner lines of a multi-line string, a
+    # comment at a smaller column): the common margin is then smaller than the block's indentation (round-5 seed C07e cut a fixed width)
+    for blk in ["    total = [1,\n  2, 3]\n    print(total)\n", '    msg = """first\nsecond line\n"""\n    echo @(msg)\n', "    if a:\n# note\n        b\n    c\n",
+                "        deep = (1,\n    2)\n        more\n", "    f(a,\n b)\n"]:
+        cases.append({"src": f"with! ctx:\n{blk}after = 1\n", "expect": [textwrap.dedent(blk)], "kind": "with", "after": "after = 1\n"})
     for line in ONELINE_MULTI:
         cases.append({"src": f"with! ctx: {line}\nnxt = 1\n", "expect": [" " + line + "\n"], "kind": "with", "after": "nxt = 1\n"})
     for line in ["pass", "x=1", "a b c"]:            # no blank after the colon
